@@ -90,10 +90,85 @@ def wrap_link(llc, log):
 
 
 # ------------------------------------------------------------------------------------------------
+class PeerDidAir(AIR.Air):
+    """The air interface with a translator that makes the nfcpy Initiator look like a peer device that uses the OPTIONAL
+    NFC-DEP device identifier (nfcpy's own Initiator never does; phones and readers may): DID d is written into ATR_REQ /
+    PSL_REQ, added to every DEP / DSL / RLS request and taken out of the responses again.  So that the translated
+    requests stay legal (one octet longer) the initiator is shown the next smaller length reduction value of the target.
+    The translator is also a monitor: a response frame longer than the LR the initiator announced, a response without
+    the DID of its request, or a frame it cannot parse is recorded in `did_errors` (the stack under test is the Target)."""
+    LR = (64, 128, 192, 254)
+
+    def __init__(self, did, *a, **k):
+        AIR.Air.__init__(self, *a, **k)
+        self.did = did
+        self.did_errors = []
+        self.lri = None          # LR announced by the initiator (limit for the target's frames)
+        self.translated = 0
+
+    def _emit(self, p, data, brty, kind):
+        if data is not None and len(data) >= 4:
+            d = bytearray(data)
+            k = 1 if (brty == "106A" and d[0] == 0xF0) else 0
+            body = d[k:]
+            if len(body) >= 3 and body[0] == len(body) and body[1] in (0xD4, 0xD5) and body[2] <= 0x0B \
+                    and (body[2] & 1) == (body[1] & 1):
+                new = self._translate(body)
+                if new is not None:
+                    self.translated += 1
+                    data = bytearray(d[:k] + new)
+        return AIR.Air._emit(self, p, data, brty, kind)
+
+    def _translate(self, b):
+        b = bytearray(b)
+        did, cmd = self.did, b[2]
+        if b[1] == 0xD4:                                   # initiator -> target
+            if cmd == 0x00 and len(b) >= 17:
+                b[13] = did
+                self.lri = self.LR[(b[16] >> 4) & 3]
+            elif cmd == 0x04 and len(b) >= 6:
+                b[3] = did
+            elif cmd == 0x06 and len(b) >= 4:
+                if not b[3] & 0x04:
+                    b[3] |= 0x04
+                    b.insert(4, did)
+            elif cmd in (0x08, 0x0A):
+                if len(b) == 3:
+                    b.append(did)
+            else:
+                return None
+        else:                                              # target -> initiator
+            if self.lri is not None and cmd != 0x01 and len(b) - 1 > self.lri:     # LR bounds the transport data (after LEN)
+                self.did_errors.append("did-peer: the Target sent %d octets of NFC-DEP transport data to an Initiator that "
+                                       "announced LR %d (peer uses DID %d)" % (len(b) - 1, self.lri, did))
+            if cmd == 0x01 and len(b) >= 18:
+                b[13] = 0
+                lrt = (b[17] >> 4) & 3
+                if lrt > 0:
+                    b[17] = (b[17] & 0xCF) | ((lrt - 1) << 4)
+            elif cmd == 0x05 and len(b) >= 4:
+                b[3] = 0
+            elif cmd == 0x07 and len(b) >= 4:
+                if b[3] & 0x04 and len(b) >= 5 and b[4] == did:
+                    b[3] &= ~0x04 & 0xFF
+                    del b[4]
+                else:
+                    self.did_errors.append("did-peer: DEP_RES without the DID %d of its request (PFB %02x)" % (did, b[3]))
+            elif cmd in (0x09, 0x0B):
+                if len(b) == 4 and b[3] == did:
+                    del b[3]
+                else:
+                    self.did_errors.append("did-peer: DSL/RLS response without the DID %d of its request" % did)
+            else:
+                return None
+        b[0] = len(b)
+        return b
+
+
 def run_snep(cfg):
     """one complete-stack execution; returns a trace dict (or raises)"""
     rnd = random.Random(cfg["seed"])
-    air = AIR.Air(stall_timeout=90.0)
+    air = PeerDidAir(cfg["peer_did"], stall_timeout=90.0) if cfg.get("peer_did") else AIR.Air(stall_timeout=90.0)
     clf_i, clf_t = air.frontends()
     air.clock.install(nfc.dep, nfc.clf, nfc.llcp.llc)
     log = Log()
@@ -201,6 +276,10 @@ def run_snep(cfg):
             if r[0] == "exc":
                 errors.append("connect() of port %d raised %r" % (k, r[1]))
         frames = [len(f) for f in air.log]
+        if cfg.get("peer_did"):
+            errors.extend(sorted(set(air.did_errors))[:3])
+            if not air.translated:
+                errors.append("harness: the DID translator saw no NFC-DEP frame")
     finally:
         air.clock.uninstall()
     const = dict(cm=0, sm=0, maxAcc=min(cfg["max_acc"], 0x3FFFFFFF))
@@ -248,6 +327,21 @@ def gen_cfgs(tier, seed):
                         srv_miu=srv_miu, srv_rw=rnd.choice([1, 2, 15]), cli_miu=cli_miu, cli_rw=rnd.choice([1, 2, 7]),
                         slow_c=slow_c, slow_s=slow_s,
                         max_acc=max(0, max_acc), acc=max(0, acc), reqs=reqs, persistent=rnd.random() < 0.5))
+    # the peer's NFC-DEP layer uses the optional device identifier (PeerDidAir): both roles for the SNEP client, LLC PDUs
+    # that fill a complete NFC-DEP frame (connection and link MIU above the frame size) and small ones
+    rnd = random.Random(seed * 31 + 7)
+    for j in range(6 if tier == "quick" else 60):
+        big = j % 3 != 2
+        lm = rnd.choice([248, 1024, 2175]) if big else rnd.choice([128, 200])
+        cmiu = rnd.choice([248, 600, 1984]) if big else 128
+        sizes = [rnd.choice([242, 250, 251, 260, 700, 1500]) + rnd.randint(-3, 3), rnd.choice([0, 3, 120, 249, 500])]
+        out.append(dict(id="snepdid%d_%d" % (seed, j), seed=seed * 100019 + j, client_role=("initiator", "target")[j % 2],
+                        peer_did=rnd.choice([1, 7, 14]),
+                        link_srv=dict(miu=lm, lto=rnd.choice([100, 500]), agf=rnd.random() < 0.5),
+                        link_cli=dict(miu=lm, lto=rnd.choice([100, 500]), agf=rnd.random() < 0.5),
+                        srv_miu=cmiu, srv_rw=rnd.choice([1, 2, 15]), cli_miu=cmiu, cli_rw=rnd.choice([1, 2, 7]),
+                        slow_c=0.0, slow_s=0.0, max_acc=0x100000, acc=1024 * 64,
+                        reqs=[(("PUT", "GET")[(j + i) % 2], L) for i, L in enumerate(sizes)], persistent=rnd.random() < 0.5))
     return out
 
 
